@@ -46,7 +46,7 @@ type C15Case struct {
 	Ops []C15Op
 }
 
-var c15Ns = []string{"ns1", "ns2"}
+var c15Ns = []string{"ns1", "ns2", "default"}
 var c15PodNames = []string{"a-1", "a-2", "b-1", "c-1"}
 var c15NPNames = []string{"p1", "p2", "p3"}
 var c15ANPNames = []string{"anp1", "anp2", "anp3", "anp4"}
@@ -56,6 +56,14 @@ func genC15Pod(t *rapid.T, l string) C15Pod {
 	p := C15Pod{Ns: rapid.SampledFrom(c15Ns).Draw(t, l+"ns"), Name: name, Labels: genLabels(t, l+"pl", 2), Port: rapid.SampledFrom([]int{80, 81}).Draw(t, l+"port"), PortName: "http"}
 	if name != "c-1" { // most pods have owners: only those are cached
 		p.Owner = name[:1]
+	}
+	// pods are never placed in "default" by name; a quarter of them are inserted through the API WITHOUT a namespace and
+	// live in "default" that way (policies and Namespace objects do name "default")
+	if p.Ns == "default" {
+		p.Ns = "ns1"
+	}
+	if rapid.IntRange(0, 3).Draw(t, l+"nons") == 0 {
+		p.Ns = ""
 	}
 	if rapid.IntRange(0, 3).Draw(t, l+"longlabels") == 0 {
 		// label sets that agree on a long prefix of their sorted rendering and differ late
